@@ -15,7 +15,7 @@ CLAIMS = {
  "C07": ("Theorem C07_outputs_valid for every input and every directive: each output document is the unescaping of a tree validation accepted; marker refusal, $required sticks through unmentioning layers; tied by chains with $required and directive-shaped strings injected anywhere, ok/err with error class and outputs compared, outputs scanned.", "unicode.IsLower above ASCII is an oracle table (python unicodedata)."),
  "C09": ("Theorems: order-independence of the two map-order loops whose order is observable (merge entries, validation), evaluation is a function, repeated Output; tied by repeated execution: 4x in-process, 2 fresh processes, different histories concurrently from several goroutines (race detector in thorough), Output bytes held and compared, bkl binary 3x.", "goroutine half is empirical; package-level state checked syntactically."),
  "C10": ("Theorems: $replace/$merge:/$replace: step equations, $replace with a directive-free target evaluates exactly as the target in place, detached evaluation never writes to any document (target intact), string and list forms agree, dangling and ambiguous references are errors; tied by every reference form incl. nested references inside targets, vs model and vs the hand-inlined document.", "yaml.Unmarshal of reference strings is an oracle table (yaml.v3 called directly). $merge 'as if inline' is step equations only; overlapping host/target is order-dependent by design (partial)."),
- "C11": ("Theorems: find_outputs refines strip/marks, filter_output refines hide, the output documents are exactly the marked subtrees in marks order with hidden parts removed (C11_select), malformed markers are errors; tied by trees with markers on any subset of maps and lists incl. nested selections.", ""),
+ "C11": ("Theorems: find_outputs refines strip/marks, filter_output refines hide, the output documents are exactly the marked subtrees in marks order with hidden parts removed (C11_select), no $output key survives in what an output is the unescaping of (C11_no_marker_survives), malformed markers are errors; tied by trees with markers on any subset of maps and lists incl. nested selections.", ""),
  "C12": ("Theorems: $repeat: n = n copies bound 0..n-1, named counts = lexicographic product of the sorted names (C12_doc_named), product size, non-integer counts are errors; tied by documents with $repeat at document level, in lists and maps, vs model and vs the hand-expanded stream.", "nested list/map repeats: correspondence only."),
  "C13": ("Theorems: the scanner splits a template of any number of segments into exactly its literals and references (C13_scan), a missing reference is an error, $env values; tied by templates with a per-case environment.", "known finding F-C13-env-dollar: environment values containing '$'."),
  "C14": ("Theorems: base64 decode inverts encode for every byte string, equations for each transform, flags, stacking is a left fold, bad arguments; tied by a model whose sha256/json/yaml/toml tables come from independent implementations (hashlib, encoding/json, yaml.v3, go-toml, python parsers).", "codecs and sha256 are oracles."),
